@@ -190,7 +190,9 @@ def main():
                 res = {"violated": [], "error": (p.stdout + p.stderr)[-2000:]}
             rec["replay_result"] = res
             json.dump(rec, open(path, "w"), indent=1, default=str)
-            gname = ob["name"].rsplit("/", 1)[1]
+            import re as _re
+            mm = _re.search(r"/path\d+/(.*)$", ob["name"])
+            gname = mm.group(1) if mm else ob["name"].rsplit("/", 1)[1]
             vio = res.get("violated", [])
             if gname in vio or gname.split("[")[0] in [v.split("[")[0] for v in vio]:
                 ob["replayed"] = True
